@@ -6,8 +6,8 @@ namespace SonicSpec.Ir
 open SonicSpec SonicSpec.Go SonicSpec.Enc SonicSpec.Json
 variable {o : EncOpts} {co : COpts}
 
-theorem ConfF_length : ∀ (fs : List (String × Option Bytes × GoType)) (ks : List (Option Field)) (vs : List GoVal),
-    ConfF fs ks vs = true → ks.length = vs.length := by
+theorem ConfF_length {c0 : COpts} : ∀ (fs : List (String × Option Bytes × GoType)) (ks : List (Option Field)) (vs : List GoVal),
+    ConfF c0 fs ks vs = true → ks.length = vs.length := by
   intro fs
   induction fs with
   | nil =>
@@ -35,20 +35,22 @@ theorem offsets_length : ∀ (fs : List (String × Option Bytes × GoType)) (off
     simp [offsets, ih]
 
 /-- compileStructBody (compiler.go:449) -/
-def structBody (co : COpts) (pc sp : Nat) (pv : Bool) (fs : List (String × Option Bytes × GoType)) (ks : List (Option Field)) : Program :=
-  [Instr.byte 123, Instr.save false, Instr.condSet] ++ codeFields co sp pv fs ks (offsets fs 0) 0 (pc + 3) ++ [Instr.drop, Instr.byte 125]
+def structBody (co : COpts) (lib : LibCode) (tab : List GoType) (pc sp : Nat) (pv : Bool) (fs : List (String × Option Bytes × GoType))
+    (ks : List (Option Field)) : Program :=
+  [Instr.byte 123, Instr.save false, Instr.condSet] ++ codeFields co lib tab sp pv fs ks (offsets fs 0) 0 (pc + 3) ++ [Instr.drop, Instr.byte 125]
 
-theorem structBody_ok (hnull : co.encOnlyOmitNull = false) {fs : List (String × Option Bytes × GoType)} {ks : List (Option Field)} {vs : List GoVal}
-    (hk : keepList fs = some ks) (hS : SubF fs = true) (hK : subK ks = true) (hC : ConfF fs ks vs = true)
-    (hIH : ∀ v ∈ vs, ∀ t, Sub t = true → Conf t v = true → CodeOK o co t v)
-    (hIH2 : ∀ w, GoVal.ptr w ∈ vs → ∀ e, Sub e = true → Conf e w = true → CodeOK o co e w)
+theorem structBody_ok {fs : List (String × Option Bytes × GoType)} {ks : List (Option Field)} {vs : List GoVal}
+    (hk : keepList fs = some ks) (hS : SubF fs = true) (hK : subK ks = true) (hC : ConfF co fs ks vs = true)
+    (hIH : ∀ v ∈ vs, ∀ t, Sub t = true → Conf co t v = true → CodeOK o co t v)
+    (hIH2 : ∀ w, GoVal.ptr w ∈ vs → ∀ e, Sub e = true → Conf co e w = true → CodeOK o co e w)
+    (lv : Nat) (tab : List GoType) (hlv : libLeft tab ≤ lv)
     (addr fpv : Bool) (P : Program) (pc sp : Nat) (pv : Bool) (r : Regs) (s : Stack) (b : Bytes)
-    (hat : At P pc (structBody co pc sp pv fs ks)) (hg : r.p.get = some (.st vs)) (hs : s.length + (needF fs + 1) ≤ maxStack) :
-    (∀ j, encV o addr (.st fs) (.st vs) = .ok j → ∀ res,
-        Halts o co fpv P (pc + (structBody co pc sp pv fs ks).length) r s (b ++ render j) res → Halts o co fpv P pc r s b res) ∧
-    (∀ e, encV o addr (.st fs) (.st vs) = .error e → e = .unsupportedValue ∧ Halts o co fpv P pc r s b (.error (.enc e))) := by
+    (hat : At P pc (structBody co (libK co lv) tab pc sp pv fs ks)) (hg : r.p.get = some (.st vs)) (hs : s.length + (needF fs vs + 1) ≤ maxStack) :
+    (∀ ms, encF o addr ks vs = .ok ms → ∀ res,
+        Halts o co fpv P (pc + (structBody co (libK co lv) tab pc sp pv fs ks).length) r s (b ++ render (.obj ms)) res → Halts o co fpv P pc r s b res) ∧
+    (∀ e, encF o addr ks vs = .error e → e = .unsupportedValue ∧ Halts o co fpv P pc r s b (.error (.enc e))) := by
   unfold structBody at hat ⊢
-  generalize hcf : codeFields co sp pv fs ks (offsets fs 0) 0 (pc + 3) = cf at hat ⊢
+  generalize hcf : codeFields co (libK co lv) tab sp pv fs ks (offsets fs 0) 0 (pc + 3) = cf at hat ⊢
   have hA : At P pc [Instr.byte 123, Instr.save false, Instr.condSet] := hat.left.left
   have hF : At P (pc + 3) cf := At.right' hat.left (by simp)
   have hE : At P (pc + 3 + cf.length) [Instr.drop, Instr.byte 125] := At.right' hat (by simp <;> omega)
@@ -57,13 +59,9 @@ theorem structBody_ok (hnull : co.encOnlyOmitNull = false) {fs : List (String ×
     simp only [step]
     rw [if_neg (by omega)]
     simp
-  obtain ⟨fok, ferr⟩ := fields_ok (o := o) (co := co) hnull (addr := addr) (fpv := fpv) (P := P) (sp := sp) (pv := pv) r vs hg s hIH hIH2
+  obtain ⟨fok, ferr⟩ := fields_ok (o := o) (co := co) (addr := addr) (fpv := fpv) (P := P) (sp := sp) (pv := pv) hlv r vs hg s hIH hIH2
     fs ks (offsets fs 0) vs 0 (pc + 3) true (b ++ [123]) (keepList_aligned hk) hS hK hC (offsets_length fs 0) (by simp) (by simp; omega) (hcf ▸ hF)
   rw [hcf] at fok
-  have hlen := ConfF_length fs ks vs hC
-  have henc : encV o addr (.st fs) (.st vs) = (encF o addr ks vs).map .obj := by
-    simp only [encV, hk, hlen, beq_self_eq_true, if_true]
-  rw [henc]
   have pre : ∀ res, Halts o co fpv P (pc + 3) { r with cond := true } (r :: s) (b ++ [123]) res → Halts o co fpv P pc r s b res := by
     intro res h
     refine halts_step (hA.get 0 (by omega) rfl) (by simp only [step]; rfl) ?_
@@ -71,53 +69,49 @@ theorem structBody_ok (hnull : co.encOnlyOmitNull = false) {fs : List (String ×
     refine halts_step (hA.get 2 (by omega) rfl) (by simp only [step]; rfl) ?_
     exact h
   constructor
-  · intro j hj res h
-    cases hms : encF o addr ks vs with
-    | error e => rw [hms] at hj; cases hj
-    | ok ms =>
-      rw [hms] at hj
-      simp only [Except.map] at hj
-      injection hj with hj; subst hj
-      refine pre res (fok ms hms res ?_)
-      refine halts_step (hE.get 0 (by omega) rfl) (by simp only [step]; rfl) ?_
-      refine halts_step (hE.get 1 (by omega) rfl) (by simp only [step]; rfl) ?_
-      exact halts_cast h (by simp <;> omega) rfl rfl (by simp [render_obj])
-  · intro e hj
-    cases hms : encF o addr ks vs with
-    | ok ms => rw [hms] at hj; cases hj
-    | error e' =>
-      rw [hms] at hj
-      simp only [Except.map] at hj
-      injection hj with hj; subst hj
-      obtain ⟨h1, h2⟩ := ferr _ hms
-      exact ⟨h1, pre _ h2⟩
-
+  · intro ms hms res h
+    refine pre res (fok ms hms res ?_)
+    refine halts_step (hE.get 0 (by omega) rfl) (by simp only [step]; rfl) ?_
+    refine halts_step (hE.get 1 (by omega) rfl) (by simp only [step]; rfl) ?_
+    exact halts_cast h (by simp <;> omega) rfl rfl (by simp [render_obj])
+  · intro e hms
+    obtain ⟨h1, h2⟩ := ferr _ hms
+    exact ⟨h1, pre _ h2⟩
 
 theorem maxIlbuf_pos : 0 < maxIlbuf := by decide
 
-theorem code_st_inline {pc sp : Nat} {pv : Bool} {fs : List (String × Option Bytes × GoType)} {ks : List (Option Field)}
-    (hk : keepList fs = some ks)
-    (hc : (decide (sp ≥ co.maxInlineDepth) || decide (pc ≥ maxIlbuf) || (decide (sp > 0) && decide (fs.length ≥ maxFields))) = false) :
-    code co pc sp pv (.st fs) = structBody co pc sp pv fs ks := by
-  rw [code]
-  simp only [hc, Bool.false_eq_true, if_false, hk]
-  rfl
+theorem cutOff_zero (hco : 0 < co.maxInlineDepth) (n : Nat) : cutOff co 0 0 n = false := by
+  have := maxIlbuf_pos
+  unfold cutOff
+  simp
+  omega
 
-theorem code_st_recurse {pc sp : Nat} {pv : Bool} {fs : List (String × Option Bytes × GoType)}
-    (hc : (decide (sp ≥ co.maxInlineDepth) || decide (pc ≥ maxIlbuf) || (decide (sp > 0) && decide (fs.length ≥ maxFields))) = true) :
-    code co pc sp pv (.st fs) = [Instr.recurse (.st fs) pv] := by
-  rw [code]
-  simp only [hc, if_true]
+/-- the object a struct value denotes, as `encV` computes it for both the unnamed and the named struct types -/
+theorem mapObj_cases {x : Except EErr (List (Bytes × JVal))}
+    {P1 : JVal → Prop} {P2 : EErr → Prop}
+    (h1 : ∀ ms, x = .ok ms → P1 (.obj ms)) (h2 : ∀ e, x = .error e → P2 e) :
+    (∀ j, x.map JVal.obj = .ok j → P1 j) ∧ (∀ e, x.map JVal.obj = .error e → P2 e) := by
+  cases x with
+  | ok ms =>
+    refine ⟨fun j hj => ?_, fun e he => (by cases he)⟩
+    simp only [Except.map] at hj
+    injection hj with hj; subst hj
+    exact h1 ms rfl
+  | error e' =>
+    refine ⟨fun j hj => (by cases hj), fun e he => ?_⟩
+    simp only [Except.map] at he
+    injection he with he; subst he
+    exact h2 _ rfl
 
-/-- structs: inline (compileStructBody) or out of line (OP_recurse runs the struct's own program, compiled at depth 0) -/
-theorem codeOK_st (hnull : co.encOnlyOmitNull = false) (hco : 0 < co.maxInlineDepth)
+/-- unnamed structs: inline (compileStructBody) or out of line (OP_recurse runs the struct's own program, compiled at depth 0) -/
+theorem codeOK_st (hco : 0 < co.maxInlineDepth)
     {fs : List (String × Option Bytes × GoType)} {vs : List GoVal}
-    (hS : Sub (.st fs) = true) (hC : Conf (.st fs) (.st vs) = true)
-    (hIH : ∀ v ∈ vs, ∀ t, Sub t = true → Conf t v = true → CodeOK o co t v)
-    (hIH2 : ∀ w, GoVal.ptr w ∈ vs → ∀ e, Sub e = true → Conf e w = true → CodeOK o co e w) :
-    CodeOK o co (.st fs) (.st vs) := by
-  intro addr fpv P pc sp pv r s b hat hg hs
-  simp only [need] at hs
+    (hS : Sub (.st fs) = true) (hC : Conf co (.st fs) (.st vs) = true)
+    (hIH : ∀ v ∈ vs, ∀ t, Sub t = true → Conf co t v = true → CodeOK o co t v)
+    (hIH2 : ∀ w, GoVal.ptr w ∈ vs → ∀ e, Sub e = true → Conf co e w = true → CodeOK o co e w) :
+    CodeOKn o co (.st fs) (.st vs) := by
+  intro lv tab hlv hnh addr fpv P pc sp pv r s b hat hg hs
+  simp only [needV] at hs
   simp only [Sub, Bool.and_eq_true] at hS
   simp only [Conf] at hC
   cases hk : keepList fs with
@@ -125,30 +119,114 @@ theorem codeOK_st (hnull : co.encOnlyOmitNull = false) (hco : 0 < co.maxInlineDe
   | some ks =>
     rw [hk] at hC hS
     simp only at hC hS
-    cases hc : (decide (sp ≥ co.maxInlineDepth) || decide (pc ≥ maxIlbuf) || (decide (sp > 0) && decide (fs.length ≥ maxFields))) with
+    have hlen := ConfF_length fs ks vs hC
+    have henc : encV o addr (.st fs) (.st vs) = (encF o addr ks vs).map .obj := by
+      simp only [encV, hk, hlen, beq_self_eq_true, if_true]
+    rw [henc]
+    rw [code, if_neg (by simp [hnh])] at hat ⊢
+    cases hc : cutOff co pc sp fs.length with
     | false =>
-      rw [code_st_inline hk hc] at hat ⊢
-      exact structBody_ok hnull hk hS.2 hS.1 hC hIH hIH2 addr fpv P pc sp pv r s b hat hg hs
+      simp only [hc, Bool.false_eq_true, if_false, hk] at hat ⊢
+      obtain ⟨bok, berr⟩ := structBody_ok (o := o) hk hS.2 hS.1 hC hIH hIH2 lv (.st fs :: tab) (Nat.le_trans (libLeft_cons_le _ _) hlv)
+        addr fpv P pc sp pv r s b hat hg hs
+      exact mapObj_cases (fun ms hms res h => bok ms hms res h) (fun e he => berr e he)
     | true =>
-      rw [code_st_recurse hc] at hat ⊢
-      -- the callee: the struct's program at position 0, depth 0
-      have hc0 : (decide (0 ≥ co.maxInlineDepth) || decide (0 ≥ maxIlbuf) || (decide (0 > 0) && decide (fs.length ≥ maxFields))) = false := by
-        have := maxIlbuf_pos
-        simp
-        omega
-      have hprog : compile co (.st fs) (fpv || pv) = structBody co 0 0 (fpv || pv) fs ks := by
+      simp only [hc, if_true] at hat ⊢
+      have hprog : compile co (.st fs) (fpv || pv) = structBody co (libK co libNames.length) [.st fs] 0 0 (fpv || pv) fs ks := by
         unfold compile
-        exact code_st_inline hk hc0
-      obtain ⟨cok, cerr⟩ := structBody_ok (o := o) hnull hk hS.2 hS.1 hC hIH hIH2 addr (fpv || pv) (structBody co 0 0 (fpv || pv) fs ks) 0 0 (fpv || pv)
-        (Regs.start r.p) s b (At.whole _) hg hs
+        rw [code, if_neg (by simp [tabHas]), cutOff_zero hco]
+        simp only [Bool.false_eq_true, if_false, hk]
+        rfl
+      obtain ⟨cok, cerr⟩ := structBody_ok (o := o) hk hS.2 hS.1 hC hIH hIH2 libNames.length [.st fs]
+        (Nat.le_trans (libLeft_cons_le _ _) (Nat.le_of_eq libLeft_nil)) addr (fpv || pv)
+        (structBody co (libK co libNames.length) [.st fs] 0 0 (fpv || pv) fs ks) 0 0 (fpv || pv) (Regs.start r.p) s b (At.whole _) hg hs
       have hstep : step o (Instr.recurse (.st fs) pv) pc r s b = .call (.st fs) pv r.p := by simp only [step]
-      constructor
-      · intro j hj res h
-        refine halts_call (hat.get 0 (by omega) rfl) hstep ?_ (halts_cast h (by simp) rfl rfl rfl)
+      refine mapObj_cases (fun ms hms res h => ?_) (fun e he => ?_)
+      · refine halts_call (hat.get 0 (by omega) rfl) hstep ?_ (halts_cast h (by simp) rfl rfl rfl)
         rw [hprog]
-        exact cok j hj _ (halts_done (At.end_none (by simp)))
-      · intro e hj
-        obtain ⟨h1, h2⟩ := cerr e hj
+        exact cok ms hms _ (halts_done (At.end_none (by simp)))
+      · obtain ⟨h1, h2⟩ := cerr e he
+        refine ⟨h1, halts_callErr (hat.get 0 (by omega) rfl) hstep ?_⟩
+        rw [hprog]
+        exact h2
+
+
+/-! ### named struct types -/
+
+theorem lib_facts_aux (fs : List (String × Option Bytes × GoType))
+    (h1 : (match keepList fs with | some ks => subK ks | none => false) = true) : ∃ ks, keepList fs = some ks ∧ subK ks = true := by
+  cases hk : keepList fs with
+  | none => rw [hk] at h1; cases h1
+  | some ks => rw [hk] at h1; exact ⟨ks, rfl, h1⟩
+
+theorem lib_facts {n : String} (h : libNames.contains n = true) :
+    ∃ fs ks, libStruct n = some fs ∧ keepList fs = some ks ∧ SubF fs = true ∧ subK ks = true := by
+  simp [libNames] at h
+  rcases h with rfl | rfl
+  · obtain ⟨ks, h1, h2⟩ := lib_facts_aux libRec (by decide +kernel)
+    exact ⟨libRec, ks, rfl, h1, by decide +kernel, h2⟩
+  · obtain ⟨ks, h1, h2⟩ := lib_facts_aux libTree (by decide +kernel)
+    exact ⟨libTree, ks, rfl, h1, by decide +kernel, h2⟩
+
+theorem encV_lib {n : String} (h : libNames.contains n = true) {fs : List (String × Option Bytes × GoType)} {ks : List (Option Field)}
+    (hls : libStruct n = some fs) (hk : keepList fs = some ks) (addr : Bool) (vs : List GoVal) (hlen : ks.length = vs.length) :
+    encV o addr (.lib n) (.st vs) = (encF o addr ks vs).map .obj := by
+  simp [libNames] at h
+  rcases h with rfl | rfl
+  · simp only [libStruct] at hls
+    injection hls with hls; subst hls
+    simp [encV, libStruct, hk, hlen]
+  · simp only [libStruct] at hls
+    injection hls with hls; subst hls
+    simp [encV, libStruct, hk, hlen]
+
+
+/-- named struct types: the body comes from the table, the name is in `tab` while it is compiled -/
+theorem codeOK_lib (hco : 0 < co.maxInlineDepth) {n : String} {vs : List GoVal}
+    (hS : Sub (.lib n) = true) (hC : Conf co (.lib n) (.st vs) = true)
+    (hIH : ∀ v ∈ vs, ∀ t, Sub t = true → Conf co t v = true → CodeOK o co t v)
+    (hIH2 : ∀ w, GoVal.ptr w ∈ vs → ∀ e, Sub e = true → Conf co e w = true → CodeOK o co e w) :
+    CodeOKn o co (.lib n) (.st vs) := by
+  intro lv tab hlv hnh addr fpv P pc sp pv r s b hat hg hs
+  simp only [Sub] at hS
+  obtain ⟨fs, ks, hls, hk, hSF, hSK⟩ := lib_facts hS
+  simp only [Conf, hls, hk] at hC
+  simp only [needV, hls] at hs
+  have hlen := ConfF_length fs ks vs hC
+  rw [encV_lib hS hls hk addr vs hlen]
+  have hlt := libLeft_lib_lt hS hnh
+  rw [code, if_neg (by simp [hnh])] at hat ⊢
+  cases lv with
+  | zero => omega
+  | succ lv' =>
+    simp only [libK, hls, Option.map, Option.getD] at hat ⊢
+    cases hc : cutOff co pc sp fs.length with
+    | false =>
+      simp only [hc, Bool.false_eq_true, if_false, hk] at hat ⊢
+      obtain ⟨bok, berr⟩ := structBody_ok (o := o) hk hSF hSK hC hIH hIH2 lv' (.lib n :: tab) (by omega)
+        addr fpv P pc sp pv r s b hat hg hs
+      exact mapObj_cases (fun ms hms res h => bok ms hms res h) (fun e he => berr e he)
+    | true =>
+      simp only [hc, if_true] at hat ⊢
+      have hl1 : libLeft [GoType.lib n] ≤ 1 := by
+        have := libLeft_lib_lt (tab := []) hS rfl
+        rw [libLeft_nil] at this
+        simp [libNames] at this
+        omega
+      have hprog : compile co (.lib n) (fpv || pv) = structBody co (libK co 1) [.lib n] 0 0 (fpv || pv) fs ks := by
+        unfold compile
+        rw [code, if_neg (by simp [tabHas])]
+        simp only [libNames, List.length_cons, List.length_nil, libK, hls, Option.map, Option.getD, cutOff_zero hco,
+          Bool.false_eq_true, if_false, hk]
+        rfl
+      obtain ⟨cok, cerr⟩ := structBody_ok (o := o) hk hSF hSK hC hIH hIH2 1 [.lib n] hl1 addr (fpv || pv)
+        (structBody co (libK co 1) [.lib n] 0 0 (fpv || pv) fs ks) 0 0 (fpv || pv) (Regs.start r.p) s b (At.whole _) hg hs
+      have hstep : step o (Instr.recurse (.lib n) pv) pc r s b = .call (.lib n) pv r.p := by simp only [step]
+      refine mapObj_cases (fun ms hms res h => ?_) (fun e he => ?_)
+      · refine halts_call (hat.get 0 (by omega) rfl) hstep ?_ (halts_cast h (by simp) rfl rfl rfl)
+        rw [hprog]
+        exact cok ms hms _ (halts_done (At.end_none (by simp)))
+      · obtain ⟨h1, h2⟩ := cerr e he
         refine ⟨h1, halts_callErr (hat.get 0 (by omega) rfl) hstep ?_⟩
         rw [hprog]
         exact h2
